@@ -18,33 +18,173 @@ fn key(k: usize) -> String {
     format!("k{}", k)
 }
 
-fn parse_val(s: &str) -> Option<Value> {
-    if let Some(r) = s.strip_prefix('i') {
-        return Some(Value::Integer(r.parse().ok()?));
-    }
-    let r = s.strip_prefix('o')?;
-    let mut m = HashMap::new();
-    if !r.is_empty() {
-        for fv in r.split('+') {
-            let (f, v) = fv.split_once(':')?;
-            let f: usize = f.parse().ok()?;
-            m.insert(format!("f{}", f), Value::Integer(v.parse().ok()?));
+/// number of observed keys of a case: k0..k2, and every further key (k3, k4 …) the initial store or an
+/// operation names (the wide families); the driver computes the same number (`caseKeys`)
+fn case_keys(init: &str, ops: &str) -> usize {
+    let mut n = NKEYS;
+    let mut see = |t: &str| {
+        let d: String = t.chars().take_while(|c| c.is_ascii_digit()).collect();
+        if let Ok(k) = d.parse::<usize>() {
+            n = n.max(k + 1);
+        }
+    };
+    if init != "-" {
+        for kv in init.split(',') {
+            see(kv);
         }
     }
-    Some(Value::Object(m))
+    if ops != "-" {
+        for op in ops.split(',') {
+            if op.starts_with('S') || op.starts_with('N') || op.starts_with('D') {
+                see(&op[1..]);
+            }
+        }
+    }
+    n
 }
 
-fn show_val(v: &Value) -> String {
-    match v {
+// value text (same grammar as lean/Driver/C10.lean):
+//   val    := `z` null | `b0`/`b1` | `i<int>` | `n<hex bits>` float | `s<hex>` string | `e<hex>` expression
+//           | `a` [scalar (`+` scalar)*] | `o` [<f>`:`member (`+` <f>`:`member)*]
+//   member := <int> (legacy, = i<int>) | scalar | `(` val `)` for arrays and objects
+fn parse_scalar(t: &str) -> Option<Value> {
+    match t {
+        "z" => return Some(Value::Null),
+        "b0" => return Some(Value::Boolean(false)),
+        "b1" => return Some(Value::Boolean(true)),
+        _ => {}
+    }
+    let (tag, r) = (t.chars().next()?, &t[1..]);
+    let text = |r: &str| if r.is_empty() { Some(String::new()) } else { unhex(r) };
+    match tag {
+        'i' => Some(Value::Integer(r.parse().ok()?)),
+        'n' => Some(Value::Number(f64::from_bits(u64::from_str_radix(r, 16).ok()?))),
+        's' => Some(Value::String(text(r)?)),
+        'e' => Some(Value::Expression(text(r)?)),
+        _ => None,
+    }
+}
+
+fn is_stop(c: u8) -> bool {
+    c == b'+' || c == b')' || c == b'('
+}
+
+fn parse_pv(b: &[u8], pos: &mut usize) -> Option<Value> {
+    let tok = |pos: &mut usize| -> String {
+        let st = *pos;
+        while *pos < b.len() && !is_stop(b[*pos]) {
+            *pos += 1;
+        }
+        String::from_utf8_lossy(&b[st..*pos]).to_string()
+    };
+    match b.get(*pos) {
+        Some(b'o') => {
+            *pos += 1;
+            let mut m = HashMap::new();
+            while *pos < b.len() && b[*pos] != b')' {
+                if b[*pos] == b'+' {
+                    *pos += 1;
+                }
+                let st = *pos;
+                while *pos < b.len() && b[*pos] != b':' {
+                    *pos += 1;
+                }
+                let f: usize = std::str::from_utf8(&b[st..*pos]).ok()?.parse().ok()?;
+                if *pos >= b.len() {
+                    return None;
+                }
+                *pos += 1; // ':'
+                let v = if b.get(*pos) == Some(&b'(') {
+                    *pos += 1;
+                    let v = parse_pv(b, pos)?;
+                    if b.get(*pos) != Some(&b')') {
+                        return None;
+                    }
+                    *pos += 1;
+                    v
+                } else {
+                    let t = tok(pos);
+                    match t.parse::<i64>() {
+                        Ok(n) => Value::Integer(n),
+                        Err(_) => parse_scalar(&t)?,
+                    }
+                };
+                m.insert(format!("f{}", f), v);
+            }
+            Some(Value::Object(m))
+        }
+        Some(b'a') => {
+            *pos += 1;
+            let mut xs = Vec::new();
+            while *pos < b.len() && b[*pos] != b')' {
+                if b[*pos] == b'+' {
+                    *pos += 1;
+                }
+                let t = tok(pos);
+                xs.push(parse_scalar(&t)?);
+            }
+            Some(Value::Array(xs))
+        }
+        _ => {
+            let t = tok(pos);
+            parse_scalar(&t)
+        }
+    }
+}
+
+fn parse_val(s: &str) -> Option<Value> {
+    let mut pos = 0;
+    let v = parse_pv(s.as_bytes(), &mut pos)?;
+    if pos == s.len() { Some(v) } else { None }
+}
+
+/// value written by `set_nested`: a bare integer (legacy) or any value text
+fn parse_nested_val(s: &str) -> Option<Value> {
+    match s.parse::<i64>() {
+        Ok(n) => Some(Value::Integer(n)),
+        Err(_) => parse_val(s),
+    }
+}
+
+fn show_scalar(v: &Value) -> Option<String> {
+    let text = |s: &str| if s.is_empty() { String::new() } else { hex(s) };
+    Some(match v {
+        Value::Null => "z".into(),
+        Value::Boolean(b) => if *b { "b1".into() } else { "b0".into() },
         Value::Integer(n) => format!("i{}", n),
+        Value::Number(x) => format!("n{:x}", x.to_bits()),
+        Value::String(s) => format!("s{}", text(s)),
+        Value::Expression(s) => format!("e{}", text(s)),
+        _ => return None,
+    })
+}
+
+/// canonical rendering: object members sorted by field index; a present `Null` is `z`, an absent key `~`
+fn show_val(v: &Value) -> String {
+    if let Some(s) = show_scalar(v) {
+        return s;
+    }
+    match v {
+        Value::Array(xs) => {
+            let mut items = Vec::new();
+            for x in xs {
+                match show_scalar(x) {
+                    Some(s) => items.push(s),
+                    None => return "?".into(),
+                }
+            }
+            format!("a{}", items.join("+"))
+        }
         Value::Object(m) => {
             let mut fs: Vec<(usize, String)> = Vec::new();
             for (f, v) in m {
-                let idx = f.strip_prefix('f').and_then(|x| x.parse::<usize>().ok());
-                match (idx, v) {
-                    (Some(i), Value::Integer(n)) => fs.push((i, format!("{}:{}", i, n))),
-                    _ => return "?".into(),
-                }
+                let Some(i) = f.strip_prefix('f').and_then(|x| x.parse::<usize>().ok()) else { return "?".into() };
+                let mv = match v {
+                    Value::Integer(n) => format!("{}", n),
+                    Value::Array(_) | Value::Object(_) => format!("({})", show_val(v)),
+                    _ => show_val(v),
+                };
+                fs.push((i, format!("{}:{}", i, mv)));
             }
             fs.sort();
             format!("o{}", fs.into_iter().map(|x| x.1).collect::<Vec<_>>().join("+"))
@@ -53,19 +193,19 @@ fn show_val(v: &Value) -> String {
     }
 }
 
-fn observe(f: &Facts) -> String {
+fn observe(f: &Facts, nkeys: usize) -> String {
     let all = f.get_all_facts();
     let snap = f.snapshot();
-    // `get_all_facts` and `snapshot().data` must agree, and nothing outside k0..k2 may appear
+    // `get_all_facts` and `snapshot().data` must agree, and nothing outside the observed keys may appear
     if all != snap.data {
         return "snapshot-mismatch".into();
     }
     for k in all.keys().chain(snap.fact_types.keys()) {
-        if !(0..NKEYS).any(|i| key(i) == *k) {
+        if !(0..nkeys).any(|i| key(i) == *k) {
             return format!("stray:{}", hex(k));
         }
     }
-    (0..NKEYS)
+    (0..nkeys)
         .map(|i| {
             let k = key(i);
             let v = all.get(&k).map(show_val).unwrap_or_else(|| "~".into());
@@ -80,6 +220,7 @@ fn exec(case: &str) -> String {
     if t.len() != 2 {
         return "bad-case".into();
     }
+    let nkeys = case_keys(t[0], t[1]);
     let f = Facts::new();
     if t[0] != "-" {
         for kv in t[0].split(',') {
@@ -114,14 +255,14 @@ fn exec(case: &str) -> String {
                 }
                 Some('N') => {
                     let Some((p, v)) = op[1..].split_once('=') else { return "bad-case".into() };
-                    let Ok(v) = v.parse::<i64>() else { return "bad-case".into() };
+                    let Some(v) = parse_nested_val(v) else { return "bad-case".into() };
                     let parts: Vec<&str> = p.split('.').collect();
                     let Ok(k) = parts[0].parse::<usize>() else { return "bad-case".into() };
                     let mut path = key(k);
                     for q in &parts[1..] {
                         path.push_str(&format!(".f{}", q));
                     }
-                    match f.set_nested(&path, Value::Integer(v)) {
+                    match f.set_nested(&path, v) {
                         Ok(()) => "ok".into(),
                         Err(RuleEngineError::FieldNotFound { .. }) => "fnf".into(),
                         Err(RuleEngineError::TypeMismatch { .. }) => "tm".into(),
@@ -134,7 +275,7 @@ fn exec(case: &str) -> String {
                 }
                 _ => return "bad-case".into(),
             };
-            steps.push(format!("{}/{}/{}", res, f.verif_undo_depth(), observe(&f)));
+            steps.push(format!("{}/{}/{}", res, f.verif_undo_depth(), observe(&f, nkeys)));
         }
     }
     if steps.is_empty() { "-".into() } else { steps.join(";") }
@@ -246,7 +387,258 @@ fn gen(rng: &mut Rng, n: usize, tier: &str) -> Vec<String> {
         }
         out.push(format!("{} {}", if init.is_empty() { "-".to_string() } else { init.join(",") }, ops.join(",")));
     }
+    gen_falsy(rng, n, tier, &mut out);
+    gen_merge(rng, n, tier, &mut out);
+    gen_long(rng, n, &mut out);
     out
+}
+
+/// values an implementation may confuse with "absent" / "nothing to restore" / "not an object yet": null, "", 0, 0.0,
+/// false, [], {}, an object whose only member is null / an empty object / an empty array
+const FALSY: [&str; 11] = ["z", "s", "i0", "b0", "n0", "a", "o", "o0:z", "o0:(o)", "o0:(a)", "o1:z"];
+const PLAIN: [&str; 9] = ["i1", "i-1", "b1", "s78", "ai0", "az", "o0:0", "o0:(o1:z)", "o0:s+1:(o0:b0)"];
+/// non-object values `set_nested` writes
+const LEAVES: [&str; 8] = ["2", "z", "0", "s", "b0", "a", "n0", "s79"];
+
+fn wide_val(rng: &mut Rng) -> String {
+    if rng.chance(3, 5) { rng.pick(&FALSY).to_string() } else { rng.pick(&PLAIN).to_string() }
+}
+
+fn wide_mutator(rng: &mut Rng, k: u64) -> String {
+    match rng.below(10) {
+        0..=3 => format!("S{}={}", k, wide_val(rng)),
+        4 => format!("N{}={}", k, rng.pick(&LEAVES)),
+        5..=6 => format!("N{}.{}={}", k, rng.below(2), rng.pick(&LEAVES)),
+        7 => format!("N{}.{}.{}={}", k, rng.below(2), rng.below(2), rng.pick(&LEAVES)),
+        _ => format!("D{}", k),
+    }
+}
+
+/// family "present but looks like nothing": a key holds a FALSY value (installed with `add_value` — type entry — or with
+/// `set` — no type entry) when a frame begins, is then written / removed / nested-set inside the frame (directly, in a
+/// committed child, in a rolled-back child, after a committed child), and the frame is rolled back: the key must come
+/// back to exactly that value — present, not absent.  Every FALSY value x every mutator x every wrapper, then an
+/// exhaustive enumeration of short sequences over a null-centred alphabet, then random sequences over the wide pool.
+fn gen_falsy(rng: &mut Rng, n: usize, tier: &str, out: &mut Vec<String>) {
+    let muts = ["S0=i1", "S0=z", "S0=o", "D0", "N0=5", "N0=z", "N0.0=2", "N0.0=z", "N0.0.1=3", "N0.1.0=z"];
+    let wraps: [&dyn Fn(&str) -> String; 6] = [
+        &|m| format!("B,{},R", m),
+        &|m| format!("B,B,{},C,R", m),
+        &|m| format!("B,B,{},R,R", m),
+        &|m| format!("B,S1=i3,B,{},C,D1,R", m),
+        &|m| format!("B,{},B,S0=i9,C,R", m),
+        &|m| format!("B,B,B,{},C,C,R", m),
+    ];
+    for v in FALSY.iter().chain(PLAIN.iter()) {
+        for m in &muts {
+            for (wi, w) in wraps.iter().enumerate() {
+                // with a type entry (add_value) and without one (set before the frame)
+                out.push(format!("0={} {}", v, w(m)));
+                if wi < 3 {
+                    out.push(format!("- S0={},{}", v, w(m)));
+                    // the falsy value is itself written inside an outer frame that is committed / rolled back afterwards
+                    out.push(format!("- B,S0={},{},C", v, w(m)));
+                    out.push(format!("0=i4 B,S0={},{},R", v, w(m)));
+                }
+            }
+        }
+    }
+    // exhaustive: every sequence of length <= 4 (thorough 5) over a null-centred alphabet; k0 is a present null,
+    // k1 an object whose only member is null, k2 absent
+    let alpha = ["B", "C", "R", "S0=i1", "S0=z", "D0", "N1.0.0=2", "N1.0=z", "S2=z", "N0.0=1"];
+    let init = "0=z,1=o0:z";
+    let mut frontier: Vec<String> = vec![String::new()];
+    for _ in 0..(if tier == "thorough" { 5 } else { 4 }) {
+        let mut next = Vec::with_capacity(frontier.len() * alpha.len());
+        for s in &frontier {
+            for a in &alpha {
+                next.push(if s.is_empty() { a.to_string() } else { format!("{},{}", s, a) });
+            }
+        }
+        for s in &next {
+            out.push(format!("{} {}", init, s));
+        }
+        frontier = next;
+    }
+    // random: the wide value pool at frame begin and inside frames, 3 keys, length 3..10
+    for _ in 0..n / 2 {
+        let mut init = Vec::new();
+        for k in 0..NKEYS {
+            if rng.chance(2, 3) {
+                init.push(format!("{}={}", k, wide_val(rng)));
+            }
+        }
+        let len = rng.range(3, 10) as usize;
+        let mut depth = 0;
+        let mut ops: Vec<String> = Vec::new();
+        for i in 0..len {
+            let k = rng.below(NKEYS as u64);
+            let op = match rng.below(20) {
+                0..=3 => "B".to_string(),
+                4..=5 => "C".into(),
+                6..=8 => "R".into(),
+                _ => wide_mutator(rng, k),
+            };
+            // keep most sequences meaningful: open a frame early, close with a rollback
+            let op = if i == 0 && rng.chance(2, 3) { "B".to_string() } else if i + 1 == len && depth > 0 { "R".to_string() } else { op };
+            match op.as_str() {
+                "B" => depth += 1,
+                "C" | "R" => depth = if depth > 0 { depth - 1 } else { 0 },
+                _ => {}
+            }
+            ops.push(op);
+        }
+        out.push(format!("{} {}", if init.is_empty() { "-".to_string() } else { init.join(",") }, ops.join(",")));
+    }
+}
+
+fn permutations(n: usize) -> Vec<Vec<usize>> {
+    fn go(cur: &mut Vec<usize>, used: &mut Vec<bool>, n: usize, out: &mut Vec<Vec<usize>>) {
+        if cur.len() == n {
+            out.push(cur.clone());
+            return;
+        }
+        for i in 0..n {
+            if !used[i] {
+                used[i] = true;
+                cur.push(i);
+                go(cur, used, n, out);
+                cur.pop();
+                used[i] = false;
+            }
+        }
+    }
+    let mut out = Vec::new();
+    go(&mut Vec::new(), &mut vec![false; n], n, &mut out);
+    out
+}
+
+/// family "a commit merges a child frame into a parent that already holds entries, the parent keeps recording, then
+/// is rolled back" (constructive, 8-20 operations): for every order of first use of 3 and of 4 keys (key names sort
+/// k0 < k1 < k2 < k3, so the order in which a frame RECORDS keys differs from their sort order in every way), every
+/// nesting depth 2..4 of committed children (each child touches the next key of the order — before/after, in sort
+/// order, the keys its parent touched), optionally a committed sibling, then the parent writes every key again (in
+/// ascending, descending and first-use order) and is rolled back — directly, or committed into an outermost frame that
+/// is rolled back.  Every write stores a distinct integer, so a rollback to any intermediate value is visible.
+fn gen_merge(rng: &mut Rng, _n: usize, tier: &str, out: &mut Vec<String>) {
+    for nk in [3usize, 4] {
+        for perm in permutations(nk) {
+            for depth in 2..=4usize {
+                for post in 0..3 {
+                    for close in 0..2 {
+                        for sibling in 0..2 {
+                            for init_mode in 0..2 {
+                                if tier != "thorough" && nk == 4 && (sibling + init_mode + post) % 2 == 1 {
+                                    continue; // quick: half of the 4-key combinations
+                                }
+                                let mut ctr = 10i64;
+                                let mut w = |rng: &mut Rng, k: usize| -> String {
+                                    ctr += 1;
+                                    match rng.below(12) {
+                                        0 => format!("D{}", k),
+                                        1 => format!("N{}={}", k, ctr),
+                                        _ => format!("S{}=i{}", k, ctr),
+                                    }
+                                };
+                                // initial store: every key present (distinct values) / only the keys of odd position
+                                let init: Vec<String> = (0..nk)
+                                    .filter(|k| init_mode == 0 || perm.iter().position(|x| x == k).unwrap() % 2 == 1)
+                                    .map(|k| format!("{}=i{}", k, k))
+                                    .collect();
+                                let mut ops: Vec<String> = Vec::new();
+                                if close == 1 {
+                                    ops.push("B".into()); // outermost frame, rolled back at the very end
+                                }
+                                ops.push("B".into()); // the parent
+                                ops.push(w(rng, perm[0])); // … already holds an entry
+                                // chain of children, each touching the next key in first-use order (cyclically)
+                                for lvl in 1..depth {
+                                    ops.push("B".into());
+                                    ops.push(w(rng, perm[lvl % nk]));
+                                    if lvl >= 2 && rng.chance(1, 2) {
+                                        ops.push(w(rng, perm[(lvl + 1) % nk]));
+                                    }
+                                }
+                                for lvl in (1..depth).rev() {
+                                    ops.push("C".into());
+                                    if lvl > 1 && rng.chance(1, 3) {
+                                        ops.push(w(rng, perm[(lvl + 1) % nk]));
+                                    }
+                                }
+                                if sibling == 1 {
+                                    ops.push("B".into());
+                                    ops.push(w(rng, perm[2 % nk]));
+                                    ops.push(w(rng, perm[1]));
+                                    ops.push("C".into());
+                                }
+                                // the parent keeps recording: every key again
+                                let mut order: Vec<usize> = match post {
+                                    0 => (0..nk).collect(),
+                                    1 => (0..nk).rev().collect(),
+                                    _ => perm.clone(),
+                                };
+                                if post == 2 {
+                                    order.rotate_left(1);
+                                }
+                                for k in order {
+                                    ops.push(w(rng, k));
+                                }
+                                if close == 1 {
+                                    ops.push("C".into());
+                                    if rng.chance(1, 2) {
+                                        ops.push(w(rng, perm[nk - 1]));
+                                    }
+                                }
+                                ops.push("R".into());
+                                out.push(format!("{} {}", if init.is_empty() { "-".to_string() } else { init.join(",") }, ops.join(",")));
+                            }
+                        }
+                    }
+                }
+            }
+        }
+    }
+}
+
+/// second stream: long random sequences (12..30 operations) over 4 or 5 keys and the wide value pool, biased towards
+/// deep nests of committed frames, every open frame closed by a rollback at the end
+fn gen_long(rng: &mut Rng, n: usize, out: &mut Vec<String>) {
+    for _ in 0..n / 4 {
+        let nk = rng.range(4, 5);
+        let mut init = Vec::new();
+        for k in 0..nk {
+            if rng.chance(1, 2) {
+                init.push(format!("{}={}", k, if rng.chance(1, 2) { wide_val(rng) } else { format!("i{}", 90 + k) }));
+            }
+        }
+        let len = rng.range(12, 30) as usize;
+        let mut depth = 0usize;
+        let mut ctr = 10i64;
+        let mut ops: Vec<String> = Vec::new();
+        while ops.len() < len {
+            let k = rng.below(nk);
+            let op = match rng.below(20) {
+                0..=3 if depth < 5 => "B".to_string(),
+                4..=6 => "C".into(),
+                7 => "R".into(),
+                8..=14 => {
+                    ctr += 1;
+                    format!("S{}=i{}", k, ctr)
+                }
+                _ => wide_mutator(rng, k),
+            };
+            match op.as_str() {
+                "B" => depth += 1,
+                "C" | "R" => depth = depth.saturating_sub(1),
+                _ => {}
+            }
+            ops.push(op);
+        }
+        for _ in 0..depth {
+            ops.push(if rng.chance(1, 4) { "C" } else { "R" }.into());
+        }
+        out.push(format!("{} {}", if init.is_empty() { "-".to_string() } else { init.join(",") }, ops.join(",")));
+    }
 }
 
 fn shrink(case: &str) -> Vec<String> {
